@@ -504,3 +504,38 @@ func VerifC17_Nesting() {
 	}
 	verifCheckMigration(g.tree(t, 3, 1))
 }
+
+// VerifC17_Independent: migrations do not influence one another: two
+// templates migrated one after the other in the same process — string
+// literals of two arbitrary letters each that differ at most in letter case,
+// inside the same expression shape — each evaluate to what their own legacy
+// template denotes.
+// cover: same-letters-other-case, different-letters
+func VerifC17_Independent() {
+	letters := func(name string) string {
+		s := zzverif.String(name, 2)
+		zzverif.Assume(len(s) == 2)
+		for i := 0; i < 2; i++ {
+			zzverif.Assume((s[i] >= 'a' && s[i] <= 'z') || (s[i] >= 'A' && s[i] <= 'Z'))
+		}
+		return s
+	}
+	s1, s2 := letters("first"), letters("second")
+	if strings.EqualFold(s1, s2) && s1 != s2 {
+		zzverif.Cover("same-letters-other-case")
+	} else if !strings.EqualFold(s1, s2) {
+		zzverif.Cover("different-letters")
+	}
+	env := envs.NewBuilder().Build()
+	eval := func(tpl string) string {
+		out, _, err := excellent.NewEvaluator().Template(env, types.NewXObject(map[string]types.XValue{}), tpl, nil)
+		zzverif.Assert(err == nil, "a migrated template does not evaluate")
+		return out
+	}
+	m1, err := MigrateTemplate("@(CONCATENATE(\""+s1+"\", \" x\"))", nil)
+	zzverif.Assert(err == nil, "the first template could not be migrated")
+	m2, err := MigrateTemplate("@(CONCATENATE(\""+s2+"\", \" x\"))", nil)
+	zzverif.Assert(err == nil, "the second template could not be migrated")
+	zzverif.Assert(eval(m1) == s1+" x", "the first migrated template does not evaluate to what the legacy template denotes")
+	zzverif.Assert(eval(m2) == s2+" x", "a template migrated after another one does not evaluate to what its legacy template denotes")
+}
